@@ -54,7 +54,7 @@ package plenc
 //@   ensures[C08] r1 == nil && old(@plenccodec.CodecRegistry.Load(registry, typ, tag)) == nil && @reflect.Type.Kind(typ) == 22 ==> called_Plenc_CodecForTypeRegistry && !mapconv(call_Plenc_CodecForTypeRegistry_r0)
 //@   # slices of pointers to fixed-width values (float pointers, at any depth of indirection) are rejected: the
 //@   # fixed-width slice wrapper reads its elements in place and is never built around pointer elements
-//@   ensures[C08] called_CodecRegistry_StoreOrSwap && call_CodecRegistry_StoreOrSwap_arg3.typ == tid("plenccodec.WTFixedSliceWrapper") ==> @reflect.Type.Kind(@reflect.Type.Elem(typ)) != 22
+//@   ensures[C08] @reflect.Type.Kind(typ) == 23 && called_CodecRegistry_StoreOrSwap && call_CodecRegistry_StoreOrSwap_arg3.typ == tid("plenccodec.WTFixedSliceWrapper") ==> @reflect.Type.Kind(@reflect.Type.Elem(typ)) != 22
 //@   # named basic kinds fall back to the codec registered on this instance for the basic type under the same tag
 //@   ensures[C17,C02,C08] old(@plenccodec.CodecRegistry.Load(registry, typ, tag)) == nil && @reflect.Type.Kind(typ) == 1 ==> (r1 == nil) == (old(@plenc.*baseRegistry.Load(p + 8, rtype(bool), tag)) != nil) && (r1 == nil ==> r0 == old(@plenc.*baseRegistry.Load(p + 8, rtype(bool), tag)))
 //@   ensures[C17,C02,C08] old(@plenccodec.CodecRegistry.Load(registry, typ, tag)) == nil && @reflect.Type.Kind(typ) == 2 ==> (r1 == nil) == (old(@plenc.*baseRegistry.Load(p + 8, rtype(int), tag)) != nil) && (r1 == nil ==> r0 == old(@plenc.*baseRegistry.Load(p + 8, rtype(int), tag)))
